@@ -521,3 +521,20 @@ Proof.
   assert (H : TInv s) by (subst s; apply run_inv; [intros; apply TInv_apply; assumption|apply TInv_init]).
   exact (t_eq _ H o d).
 Qed.
+
+(** ** C08: consequences of the scheduling invariant, over every history with fresh context ids *)
+Theorem active_requests_lemma :
+  forall c steps h0 t0 l0,
+    fresh_history c (init h0 t0 l0) steps ->
+    let s := run c (init h0 t0 l0) steps in
+    (forall rid q, get rid (reqs s) = Some q -> q_active q = true ->
+       exists x, get (rid_ctx rid) (ctxs s) = Some x /\ x_brun x = true /\ rid_b rid = x_batch x)
+    /\ (forall id x, get id (ctxs s) = Some x -> x_brun x = true ->
+          nact id (reqs s) <= x_breq x - x_bresp x /\ has id (expmark s) = true)
+    /\ (forall h id x, In (h, id) (newq s) -> get id (ctxs s) = Some x -> x_brun x = false /\ get id (newmark s) = Some h).
+Proof.
+  intros c steps h0 t0 l0 Hf s. destruct (SInv_reachable c steps h0 t0 l0 Hf) as (Q & B). fold s in Q, B.
+  split; [exact (b_act _ B)|]. split.
+  - intros id x Hg Hr. split; [exact (b_count _ B id x Hg Hr)|exact (q_run_mark _ Q id x Hg Hr)].
+  - intros h id x Hin Hg. split; [exact (q_new_closed _ Q h id x Hin Hg)|exact (q_new_mark _ Q h id Hin)].
+Qed.
